@@ -406,3 +406,13 @@ fn shape_name(shape: &JsonShape) -> String {
         }
     }
 }
+
+/// Verification hook (cargo feature `verif`): the generated items for `shape`, exactly as
+/// `compile_json` renders them (without the file header).
+#[cfg(feature = "verif")]
+#[must_use]
+pub fn verif_generate(shape: &JsonShape) -> String {
+    let mut scope = Scope::new();
+    first_pass(shape, &mut scope);
+    scope.to_string()
+}
